@@ -474,3 +474,19 @@ pub fn sized_table(k: usize, n: usize, special: u32, surv: usize, gone: usize, s
 
 /// row counts on and next to block sizes that row-processing code is likely to use
 pub const BOUNDARY_SIZES: [usize; 14] = [255, 256, 257, 1023, 1024, 1025, 2047, 2048, 2049, 3072, 4095, 4096, 4097, 8192];
+
+pub fn show_samples(samples: &[Sample]) -> String {
+    format!("{:?}", samples.iter().map(|(n, r)| (n.clone(), r.iter().map(|x| lossy(x)).collect::<Vec<_>>())).collect::<Vec<_>>())
+}
+
+/// one name per line, in the layouts a text editor may leave: with or without a final newline,
+/// Windows line endings, a trailing blank line, trailing white space
+pub fn names_file_text(names: &[String], variant: usize) -> String {
+    match variant % 5 {
+        0 => names.join("\n") + "\n",
+        1 => names.join("\n"),
+        2 => names.join("\r\n") + "\r\n",
+        3 => names.join("\n") + "\n\n",
+        _ => names.iter().map(|n| format!("{n} \t")).collect::<Vec<_>>().join("\n") + "\n",
+    }
+}
